@@ -13,6 +13,7 @@ Tolerance: 1e-9 * max(1, |y|max) (float64), 2e-4 for single precision.
 import numpy as np
 
 from vf.common import Plan, crandn, held, violated, inconclusive, rng_for, nrm, pick
+from vf import repo_tests
 from vf.monitors import prox_mon
 from vf.monitors import STATE
 from vf.monitors import prox_mon
@@ -59,6 +60,9 @@ def plan(tier, seed):
                       scale=(pick(rng, [1e-9, 1e-9, 1e6]) if i % 4 == 2 and inp in (
                           "gauss", "boundary", "interior", "ties", "sym", "herm", "nonherm",
                           "psd", "rankdef") else 1.0))
+    if tier == "thorough" and repo_tests.available():
+        # the repository's own test suite as one more workload under the always-on monitors
+        P.add("repo-tests", timeout=1800.0, fresh=True)
     return P.cases
 
 
@@ -313,6 +317,8 @@ def run_fn(case, rng):
 
 
 def run_case(case):
+    if case["gen"] == "repo-tests":
+        return repo_tests.run("C11")
     rng = np.random.default_rng(case["pseed"])
     _BIG[0] = bool(case.get("big"))
     _SC[0] = float(case.get("scale", 1.0))
